@@ -66,6 +66,9 @@ class InstrumentationSetupAction(enum.IntEnum):
     ADD_FIRST_TWO_REVERSED = enum.auto()
     """The first two elements of the stack are reversed then added."""
 
+    COPY_THIRD = enum.auto()
+    """The third element of the stack is copied."""
+
 
 class InstrumentationStackValue(enum.IntEnum):
     """Represents a stack value in instrumentation."""
